@@ -11,7 +11,7 @@
 (*   dec_err yabgp.parse(ref) reported an error                            *)
 (* TLC evaluates the structural walker and the normal form on `impl`.      *)
 (***************************************************************************)
-EXTENDS WireUpdate, WireOpen, TLCExt, Json, IOUtils
+EXTENDS WireUpdate, WireOpen, WireComm, TLCExt, Json, IOUtils
 
 CONSTANTS PROPS
 Tr == ndJsonDeserialize(IOEnv.TRACE_FILE)
@@ -40,7 +40,24 @@ CheckSess(r) ==
    /\ Ck("C14", r, "C14.decode", r.kind \in SessKinds \cup {"open"} => r.dec_ok, r.ddiff)
    /\ Ck("C08", r, "C08.wellformed", (r.kind \in SessKinds /\ HasImpl(r)) => WfSess(r), <<>>)
    /\ Ck("C08", r, "C08.silent", r.kind \in SessKinds => ~r.none, <<>>)
+\* C17: value octets of attribute `t` in an UPDATE message (<<-1>> when absent or the message is malformed)
+AttrValueOf(m, t) ==
+   IF Len(m) < 23 THEN <<-1>>
+   ELSE LET b == Drop(m, 19)  wl == N16(b, 1) IN
+        IF Len(b) < 4 + wl THEN <<-1>>
+        ELSE LET al == N16(b, 3 + wl) IN
+             IF Len(b) < 4 + wl + al THEN <<-1>>
+             ELSE LET as == SplitAttrs(SubSeq(b, 5 + wl, 4 + wl + al))
+                      hit == {i \in 1..Len(as) : as[i].t = t}
+                  IN IF hit = {} THEN <<-1>> ELSE as[CHOOSE i \in hit : TRUE].v
+CheckComm(r) ==
+   r.kind = "comm" =>
+      /\ Ck("C17", r, "C17.rendered", r.decoded, r.diff)
+      /\ Ck("C17", r, "C17.accepted", r.decoded => r.accepted, r.diff)
+      /\ Ck("C17", r, "C17.octets", r.accepted => (WfUpdate(r.bin, TRUE) /\ SameExt(AttrValueOf(r.bin, r.sub), r.ref)), r.text)
+      /\ Ck("C17", r, "C17.sametext", r.accepted => r.text2_same, r.diff)
+      /\ Ck("C17", r, "C17.sent", r.accepted => (r.sent_ok /\ r.wire = r.bin /\ r.exc = 0), r.text)
 Init == l = 1
-Next == l <= Len(Tr) /\ CheckLine(Tr[l]) /\ CheckSess(Tr[l]) /\ l' = l + 1
+Next == l <= Len(Tr) /\ (IF Tr[l].kind = "comm" THEN CheckComm(Tr[l]) ELSE (CheckLine(Tr[l]) /\ CheckSess(Tr[l]))) /\ l' = l + 1
 AllConsumed == TLCGet("stats").diameter - 1 = Len(Tr)
 =============================================================================
